@@ -1,10 +1,10 @@
 package main
 
 import (
-	"sort"
 	"fmt"
-	"os"
 	"go/types"
+	"os"
+	"sort"
 	"strings"
 
 	"golang.org/x/tools/go/ssa"
